@@ -7,7 +7,7 @@ func init() {
 		Run: func(c *Ctx) {
 			c.Rule("C15.R1", "ordering and ownership of policy sync", 21)
 			rulePolicySync(c, "C15.R1")
-			c.Rule("C15.R3", "policies only under the manager mutex; never modified in place", 8)
+			c.Rule("C15.R3", "policies only under the manager mutex; never modified in place", 20)
 			ruleGuardedBy(c, "C15.R3", []string{"PolicyManager.Mutex"}, 4)
 			ruleNoInPlaceSliceReuse(c, "C15.R3")
 		}})
